@@ -173,95 +173,95 @@ func runC18(k c18Case) (vs []mon.V, err error) {
 	// judge reconciles every setting of the current population twice in the given order and compares the statuses
 	// with the reference verdict
 	judge := func() (stop bool) {
-	for pass := 0; pass < 2; pass++ {
-		for _, i := range k.Order {
-			step = pass*len(k.Order) + 0
-			for pos, j := range k.Order {
-				if j == i {
-					step = pass*len(k.Order) + pos
+		for pass := 0; pass < 2; pass++ {
+			for _, i := range k.Order {
+				step = pass*len(k.Order) + 0
+				for pos, j := range k.Order {
+					if j == i {
+						step = pass*len(k.Order) + pos
+					}
+				}
+				if pending[k.Settings[i].NS+"/"+k.Settings[i].Name] {
+					continue
+				}
+				r := c.Reconcile(sim.ActorSetting, k.Settings[i].NS, k.Settings[i].Name)
+				if r.Panic != nil {
+					add("C18/no-panic/"+panicSiteOf(r.Stack), fmt.Sprintf("setting reconcile panicked: %v", r.Panic))
+					return true
 				}
 			}
-			if pending[k.Settings[i].NS+"/"+k.Settings[i].Name] {
-				continue
-			}
-			r := c.Reconcile(sim.ActorSetting, k.Settings[i].NS, k.Settings[i].Name)
-			if r.Panic != nil {
-				add("C18/no-panic/"+panicSiteOf(r.Stack), fmt.Sprintf("setting reconcile panicked: %v", r.Panic))
-				return true
-			}
 		}
-	}
-	// ---- reference verdict
-	usable := func(s c18Setting) bool { return !c18Bad(s.Selector) }
-	hasRef := func(s c18Setting) bool { return s.Ref != "nil" && s.Ref != "" }
-	matches = func(s c18Setting, l map[string]string) bool {
-		sel, e := metav1.LabelSelectorAsSelector(func() *metav1.LabelSelector { x := c18Selector(s.Selector); return &x }())
-		return e == nil && sel.Matches(labels.Set(l))
-	}
-	overlap := func(a, b c18Setting) bool {
-		if a.NS != b.NS || !usable(a) || !usable(b) {
+		// ---- reference verdict
+		usable := func(s c18Setting) bool { return !c18Bad(s.Selector) }
+		hasRef := func(s c18Setting) bool { return s.Ref != "nil" && s.Ref != "" }
+		matches = func(s c18Setting, l map[string]string) bool {
+			sel, e := metav1.LabelSelectorAsSelector(func() *metav1.LabelSelector { x := c18Selector(s.Selector); return &x }())
+			return e == nil && sel.Matches(labels.Set(l))
+		}
+		overlap := func(a, b c18Setting) bool {
+			if a.NS != b.NS || !usable(a) || !usable(b) {
+				return false
+			}
+			for _, l := range k.Nodes {
+				if matches(a, l) && matches(b, l) {
+					return true
+				}
+			}
 			return false
 		}
-		for _, l := range k.Nodes {
-			if matches(a, l) && matches(b, l) {
-				return true
+		status = map[string]edsv1.ExtendedDaemonsetSettingStatus{}
+		for _, s := range k.Settings {
+			if o := c.Setting(s.NS, s.Name); o != nil {
+				status[s.NS+"/"+s.Name] = o.Status
+			}
+		}
+		isValid = func(s c18Setting) bool {
+			return status[s.NS+"/"+s.Name].Status == edsv1.ExtendedDaemonsetSettingStatusValid
+		}
+		for i, s := range k.Settings {
+			st := status[s.NS+"/"+s.Name]
+			if pending[s.NS+"/"+s.Name] {
+				continue // not reconciled yet: no verdict is due (its empty status must simply not count as valid)
+			}
+			if !hasRef(s) || !usable(s) {
+				if st.Status != edsv1.ExtendedDaemonsetSettingStatusError || st.Error == "" {
+					why := "no-reference"
+					if hasRef(s) {
+						why = "unusable-selector"
+					}
+					add("C18/settings/malformed-not-in-error/"+why, fmt.Sprintf("setting %s (%s) has status %q error %q", s.Name, why, st.Status, st.Error))
+				}
+				continue
+			}
+			if isValid(s) && st.Error != "" {
+				add("C18/settings/valid-with-error-text", fmt.Sprintf("setting %s is valid but still reports the error %q", s.Name, st.Error))
+			}
+			overlapsAny := false
+			for j, o := range k.Settings {
+				if i == j {
+					continue
+				}
+				if overlap(s, o) {
+					overlapsAny = true
+					if i < j && isValid(s) && isValid(o) {
+						add("C18/settings/two-overlapping-valid", fmt.Sprintf("settings %s and %s match a common node and are both valid", s.Name, o.Name))
+					}
+				}
+			}
+			if !overlapsAny && !isValid(s) {
+				poisoned := "plain"
+				for _, o := range k.Settings {
+					if o.NS == s.NS && !usable(o) {
+						poisoned = "another-setting-has-unusable-selector"
+					}
+				}
+				add("C18/settings/well-formed-non-overlapping-not-valid/"+poisoned, fmt.Sprintf("setting %s is well formed and overlaps no other setting but has status %q error %q", s.Name, st.Status, st.Error))
+			}
+			if overlapsAny && !isValid(s) && !strings.Contains(st.Error, "conflict") {
+				add("C18/settings/invalid-without-conflict-error", fmt.Sprintf("setting %s overlaps another one and is not valid, but its error %q does not report a conflict", s.Name, st.Error))
 			}
 		}
 		return false
-	}
-	status = map[string]edsv1.ExtendedDaemonsetSettingStatus{}
-	for _, s := range k.Settings {
-		if o := c.Setting(s.NS, s.Name); o != nil {
-			status[s.NS+"/"+s.Name] = o.Status
-		}
-	}
-	isValid = func(s c18Setting) bool {
-		return status[s.NS+"/"+s.Name].Status == edsv1.ExtendedDaemonsetSettingStatusValid
-	}
-	for i, s := range k.Settings {
-		st := status[s.NS+"/"+s.Name]
-		if pending[s.NS+"/"+s.Name] {
-			continue // not reconciled yet: no verdict is due (its empty status must simply not count as valid)
-		}
-		if !hasRef(s) || !usable(s) {
-			if st.Status != edsv1.ExtendedDaemonsetSettingStatusError || st.Error == "" {
-				why := "no-reference"
-				if hasRef(s) {
-					why = "unusable-selector"
-				}
-				add("C18/settings/malformed-not-in-error/"+why, fmt.Sprintf("setting %s (%s) has status %q error %q", s.Name, why, st.Status, st.Error))
-			}
-			continue
-		}
-		if isValid(s) && st.Error != "" {
-			add("C18/settings/valid-with-error-text", fmt.Sprintf("setting %s is valid but still reports the error %q", s.Name, st.Error))
-		}
-		overlapsAny := false
-		for j, o := range k.Settings {
-			if i == j {
-				continue
-			}
-			if overlap(s, o) {
-				overlapsAny = true
-				if i < j && isValid(s) && isValid(o) {
-					add("C18/settings/two-overlapping-valid", fmt.Sprintf("settings %s and %s match a common node and are both valid", s.Name, o.Name))
-				}
-			}
-		}
-		if !overlapsAny && !isValid(s) {
-			poisoned := "plain"
-			for _, o := range k.Settings {
-				if o.NS == s.NS && !usable(o) {
-					poisoned = "another-setting-has-unusable-selector"
-				}
-			}
-			add("C18/settings/well-formed-non-overlapping-not-valid/"+poisoned, fmt.Sprintf("setting %s is well formed and overlaps no other setting but has status %q error %q", s.Name, st.Status, st.Error))
-		}
-		if overlapsAny && !isValid(s) && !strings.Contains(st.Error, "conflict") {
-			add("C18/settings/invalid-without-conflict-error", fmt.Sprintf("setting %s overlaps another one and is not valid, but its error %q does not report a conflict", s.Name, st.Error))
-		}
-	}
-	return false
 	}
 	// ---- only valid settings influence pods; at most one per node. The replica set of "foo" syncs until quiet and
 	// every daemon pod that exists is judged (after a change of the verdicts, pods created under the old ones
